@@ -3,7 +3,11 @@
 import json, os, sys
 ROOT = os.path.dirname(os.path.dirname(os.path.abspath(__file__)))
 sys.path.insert(0, os.path.join(ROOT, "tools"))
-import manifest_entries as M
+import props as P
+class M: pass
+M.CHECKS={k:v['manifest'] for k,v in P.PROPS.items() if v.get('claimed')}
+M.NOT_APPLICABLE={k:v['not_applicable'] for k,v in P.PROPS.items() if v.get('not_applicable')}
+M.HOOK_COMMITS=json.load(open(os.path.join(ROOT,'tools','hooks.json')))['source_commits']
 ids = [json.loads(l)["id"] for l in open(os.path.join(ROOT, "properties.jsonl")) if l.strip()]
 checks = []
 for pid in ids:
